@@ -357,6 +357,12 @@ class MultiFS(FS):
         fs = self._delegate(path)
         return fs is not None and fs.isdir(path)
 
+    def islink(self, path):
+        # type: (Text) -> bool
+        self.check()
+        fs = self._delegate_required(path)
+        return fs.islink(path)
+
     def isfile(self, path):
         # type: (Text) -> bool
         self.check()
